@@ -23,7 +23,7 @@ ASSUMPTIONS = [
 def bounds(tier: str) -> Dict[str, Any]:
     if tier == "quick":
         return dict(T=4, K=4, distract_K=2, file_K=2, tie_max_dev=1, chunk=64)
-    return dict(T=5, K=5, distract_K=3, file_K=3, tie_max_dev=2, chunk=64)
+    return dict(T=5, K=4, distract_K=3, file_K=3, tie_max_dev=2, chunk=64)
 
 
 def worlds(tier: str, stats: Dict[str, Any]) -> Iterator[Any]:
